@@ -1,12 +1,128 @@
-// Package c13 decides C13 (see /verif/DESIGN.md §7).
+// Package c13 decides C13: the concurrent background loops are race-free, keep the invariants and stop promptly.
+// The registered command runs the binary built with -race; a race report terminates the process and is turned
+// into a violation by the parent, which runs every batch in a child process.
 package c13
 
-import "verifharness/vk"
+import (
+	"fmt"
+	"os"
+	"path/filepath"
+	"strings"
+	"time"
+
+	"verifharness/vk"
+	"verifharness/world"
+)
 
 // Level is the verification level claimed for this property.
 const Level = "exploration"
 
+func init() { vk.Children["c13"] = child }
+
+func universeConfigs(r *vk.Run) []Config {
+	rng := r.Rand("universes")
+	n := r.N(6, 40)
+	var out []Config
+	for i := 0; i < n; i++ {
+		c := Config{ID: i, Blocks: uint64(r.N(60, 300)), BlockTime: time.Duration(2+rng.Intn(4)) * time.Millisecond, DATime: time.Duration(3+rng.Intn(8)) * time.Millisecond,
+			Lazy: i%3 == 2, DAFaultPct: []int{0, 10, 30}[rng.Intn(3)], DADelayUs: []int{0, 200, 2000}[rng.Intn(3)], Seed: rng.Int63()}
+		if i%4 == 1 {
+			c.MaxPending = uint64(2 + rng.Intn(8))
+		}
+		out = append(out, c)
+	}
+	return out
+}
+
+// child runs one batch: args = shard nShards tier.
+func child(args []string) int {
+	world.Silence()
+	var shard, n int
+	fmt.Sscanf(args[0], "%d", &shard)
+	fmt.Sscanf(args[1], "%d", &n)
+	r := vk.NewChildRun("C13", args[2], Level, os.Stdout)
+	full := vk.NewRunNoCleanup("C13", args[2], Level)
+	for i, cfg := range universeConfigs(full) {
+		if i%n != shard {
+			continue
+		}
+		r.Journal(map[string]any{"universe": cfg})
+		runUniverse(r, cfg)
+		r.FlushHits()
+	}
+	id := 0
+	reps := full.N(1, 4)
+	for rep := 0; rep < reps; rep++ {
+		for _, sc := range stopKinds {
+			sc.ID = id
+			id++
+			if sc.ID%n != shard {
+				continue
+			}
+			r.Journal(map[string]any{"stop": sc})
+			runStop(r, sc)
+			r.FlushHits()
+		}
+	}
+	if shard == 0 {
+		r.Journal(map[string]any{"fullstack": true})
+		runFullStack(r)
+		r.FlushHits()
+	}
+	return 0
+}
+
+func raceEnabledNote() string {
+	if raceEnabled {
+		return "race detector ON"
+	}
+	return "race detector OFF (this binary was not built with -race)"
+}
+
 // Run is the check entry point.
 func Run(r *vk.Run) {
-	r.Rule = "not implemented yet"
+	world.Silence()
+	r.Rule = "(a) concurrent worlds: a real aggregator Manager (production, reaper, header and data submission, DA inclusion loops; real single sequencer; mempool injector) and a real full node Manager (DA scan, both P2P store loops, sync, DA inclusion) run as goroutines against one DA double with random latency and faults, datastore yields at every call, block time 2-5 ms, DA block time 3-10 ms, lazy/normal mode, with/without pending limit, until 60 | 300 blocks; afterwards the chain, convergence, submission and inclusion oracles run on the final state (prefix forms); (b) stop scenarios by logical position (start-up delay with genesis in the future; inside a blocked DA submit; inside execution; header/data event channel full via DA and via P2P with a stalled consumer; mid-scan; idle): cancel, release every double, every loop must return within 10 s; (c) the real FullNode.Run (libp2p on loopback) aggregator + full node, stopped at seeded instants. Everything runs in child processes of the -race build: a race report or crash kills the child and is reported with the case it was running. non-trivial = a world in which at least three loops made progress, or a stop scenario whose position was reached; distinct by interleaving signature (number of distinct windows of 6 consecutive loop-labelled operations) resp. scenario"
+	r.Assume(raceEnabledNote())
+	r.Assume("a goroutine still inside the repository's code 10 s after cancel, with every double released and all timers of the configuration <= 20 ms, is hung, not slow")
+	logDir := filepath.Join(vk.Root(), "out", "tmp", fmt.Sprintf("C13-race-%d", os.Getpid()))
+	_ = os.MkdirAll(logDir, 0o755)
+	defer os.RemoveAll(logDir)
+	os.Setenv("GORACE", "halt_on_error=1 exitcode=66 log_path="+filepath.Join(logDir, "race"))
+	shards := r.N(6, 12)
+	results := r.RunShards("c13", shards, shards, 60*time.Minute)
+	races := 0
+	for _, res := range results {
+		if res.ExitErr == nil {
+			continue
+		}
+		tail := res.Tail
+		// race reports go to the log files
+		files, _ := filepath.Glob(filepath.Join(logDir, "race.*"))
+		var report string
+		for _, f := range files {
+			b, _ := os.ReadFile(f)
+			if strings.Contains(string(b), "DATA RACE") {
+				report += string(b)
+			}
+		}
+		if len(report) > 12000 {
+			report = report[:12000]
+		}
+		if strings.Contains(report, "DATA RACE") || strings.Contains(tail, "DATA RACE") {
+			races++
+			r.Violation("race-free", fmt.Sprintf("the race detector reported a data race (child %d, %v)", res.Shard, res.ExitErr),
+				map[string]any{"last_case_started": res.LastCase, "race_report": report, "output_tail": tail})
+		} else {
+			r.Violation("no-crash", fmt.Sprintf("a child running concurrent loops died (%v)", res.ExitErr),
+				map[string]any{"last_case_started": res.LastCase, "output_tail": tail})
+		}
+	}
+	r.Set("race_detector", raceEnabledNote())
+	r.Set("race_reports", races)
+	r.Require("stop-promptly", 4)
+	r.Require("stop-scenario", 8)
+	if !raceEnabled {
+		r.Inconclusive("binary built without -race: the race clause was not exercised")
+	}
 }
